@@ -92,7 +92,7 @@ func enclosingFunc(file *ast.File, pos token.Pos) string {
 }
 
 func rulePR1(c *Ctx) *rule {
-	r := &rule{ID: "PR1", Engine: "E6", Floor: 3,
+	r := &rule{ID: "PR1", Engine: "E6", Floor: 1,
 		Statement: "wherever the parser tests X.Is(token.ERROR), the error returned from that arm is built from X.Value — the value of the very token that was tested — and the arm does return",
 		Necessity: "the lexer's ERROR token is the only carrier of 'Line n' and the quoted line; substituting another token's Value loses the location (the whole message becomes e.g. '(')"}
 	p := c.typPkg("parser")
